@@ -8,6 +8,7 @@ import (
 	"strconv"
 	"strings"
 	"unicode"
+	"unicode/utf8"
 
 	"github.com/mithrandie/go-text"
 	txjson "github.com/mithrandie/go-text/json"
@@ -399,8 +400,13 @@ func RuneWidth(r rune, flags *Flags) int {
 }
 
 func TrimSpace(s string) string {
-	if 0 < len(s) && (unicode.IsSpace(rune(s[0])) || unicode.IsSpace(rune(s[len(s)-1]))) {
-		s = strings.TrimSpace(s)
+	if 0 < len(s) {
+		// The first and the last character, not byte: a no-break or ideographic space takes several bytes.
+		first, _ := utf8.DecodeRuneInString(s)
+		last, _ := utf8.DecodeLastRuneInString(s)
+		if unicode.IsSpace(first) || unicode.IsSpace(last) {
+			s = strings.TrimSpace(s)
+		}
 	}
 	return s
 }
